@@ -1,36 +1,75 @@
 //! C19, consumer side: `worker <op>;…` drives a REAL `ClusterWorker::work()` (spawned by the cfg(scylla_verif) hook
-//! `verif_hooks::cluster_worker::WorkerRig`: real merge channel, real `apply_metadata_update`, reject-all host filter so
-//! nothing touches the network) over histories of producer merges interleaved with consumer catch-ups.
+//! `verif_hooks::cluster_worker::WorkerRig`: real merge channel, real `apply_metadata_update`, real `ClusterState`
+//! construction, real tablets branch) over histories of producer merges interleaved with consumer catch-ups.
 //!
-//! Ops: header ops (only at the start, in this order): `A1` NO host filter - every node of a topology is enabled and gets a
-//! REAL connection pool towards 127.1.<tag>>8>.<tag&255>:9042, where nothing listens (refused at once) unless an
-//! `L<tag>` op started a listener there that accepts and closes at once (the handshake fails), so
-//! `apply_metadata_update` really waits at `wait_until_all_pools_are_initialized()`; `S1` a
-//! `ClientRoutesAddressTranslator` is configured as client-routes subscriber;
-//! `F<tag>`/`R<tag>` merge_metadata without/with a refresh request (no client routes configured), `G<tag>/<routes>` /
-//! `H<tag>/<routes>` the same with client routes, `T<tag>` merge_topology_update, `C<entries>`
-//! merge_client_routes_update, `U<addr>`/`W<addr>` up/down hint (syntax as in the `slot` cases);
-//! `K` lets the consumer catch up: waits until the worker has taken the slot, then merges a sentinel DOWN hint and waits
-//! until that is taken as well - `recv` is only called again after `apply_metadata_update` returned, so by then the
-//! first update has been processed completely - and prints what is PUBLISHED:
-//! `pub=<host ids of known_nodes> new=<0|1: a new ClusterState object was published> ok=<refresh ids answered Ok>
-//! err=<…> drop=<…> routes=<what the subscriber holds: host.conn.port,… | - | none>`.
-//! The runtime is single-threaded, so the worker only runs while the harness awaits inside `K`: everything merged
-//! between two `K`s reaches the consumer as ONE update, and the case is deterministic (compared with
-//! Model/ClusterConsumer.lean).
+//! Header ops (only at the start, in this order, all optional):
+//!   `A1` no host filter / `A2` a host filter rejecting exactly the peers whose rack is 9 (default: reject all, i.e.
+//!        pool-less nodes). An ENABLED node gets a REAL connection pool towards its address 127.1.<addr>>8>.<addr&255>:9042,
+//!        so `apply_metadata_update` really waits at `wait_until_all_pools_are_initialized()`;
+//!   `S1` a `ClientRoutesAddressTranslator` is configured as client-routes subscriber;
+//!   `I<nodes>` the initial topology (default: one node, host 0).
+//! Topologies: `<nodes>` = `host.addr.dc.rack,…` (dc / rack 0 = unknown); a bare `<tag>` is the one-node topology `tag.tag.0.0`.
+//! Ops: `F<tag>`/`R<tag>` merge_metadata without/with a refresh request, `G<tag>/<routes>` / `H<tag>/<routes>` the same
+//! with client routes configured, `M<nodes>` / `N<nodes>` merge_metadata (without / with refresh) of an explicit peer
+//! list, `T<tag>` / `P<nodes>` merge_topology_update (a PARTIAL topology fetch), `C<entries>` merge_client_routes_update,
+//! `U<addr>`/`W<addr>` up/down hint; `B` the consumer applies what is pending, then a tablets batch arrives (the worker's
+//! OTHER publisher: load - clone - store) and is waited for;
+//! what listens at a node address: `L<addr>` accepts and closes at once, `Q<addr>` answers OPTIONS then closes,
+//! `Y<addr>` completes the CQL handshake (the pool becomes Ready), `Z<addr>` accepts and never answers (the attempt
+//! stays in flight until the 5 s connect timeout: the handler stays parked - the case reports `hang` after 1.5 s and
+//! ends); nothing listening = refused at once.
+//! `K` lets the consumer catch up (waits until the worker has taken the slot, merges a sentinel DOWN hint and waits
+//! until that is taken as well: `recv` is only called again after `apply_metadata_update` returned) and prints what is
+//! PUBLISHED: `pub=<nodes as host.addr.dc.rack.enabled>` if EVERY view of the published state (get_nodes_info(),
+//! known_nodes, get_node_by_host_id, the ring) shows the same node objects, else `VIEWS-DIFFER …`; `new=<0|1>`
+//! (a new ClusterState object was published); `ok= err= drop=` refresh requests resolved; `routes=` what the subscriber
+//! holds. The runtime is single-threaded, so the worker only runs while the harness awaits: everything merged between
+//! two `K`s reaches the consumer as ONE update and the case is deterministic (compared with Model/ClusterConsumer.lean).
 //!
 //! ORACLE (model-independent; C19: "the published state reflects the latest fetched topology", "a requested refresh is
-//! answered"): after each catch-up the published `known_nodes` are exactly the peers of the LATEST topology merged so
-//! far (full or partial fetch, whatever was merged with it); a new state was published iff a topology was merged since
-//! the previous catch-up; every refresh request attached since then has been answered `Ok`, none dropped; the worker
-//! takes a pending update - i.e. finishes applying the previous one, unreachable nodes included - within 20 s; the
-//! subscriber holds exactly the client routes of the latest full snapshot with the later partial updates applied.
+//! answered"): after each catch-up every view of the published state names the same `Node` object per host id and
+//! equals the LATEST topology merged so far FIELD-WISE (address, dc, rack, the filter's verdict); a new state was
+//! published iff a topology or a tablets batch arrived since the previous catch-up; a tablets batch reverts nothing;
+//! every refresh request attached since then has been answered `Ok`, none dropped; the worker finishes applying an
+//! update within 20 s unless a node of it accepts connections and never answers; the subscriber holds exactly the
+//! client routes merged in.
 use crate::rng::Rng;
 use crate::{Ctx, Tier};
-use scylla::verif_hooks::cluster_worker::WorkerRig;
+use scylla::verif_hooks::cluster_worker::{NodeView, PeerSpec, WorkerRig};
+use std::collections::{BTreeMap, BTreeSet};
+use std::net::SocketAddr;
 use std::time::{Duration, Instant};
+use tokio::io::{AsyncReadExt, AsyncWriteExt};
 
-const INITIAL_TAG: u64 = 0;
+fn addr_of(a: u16) -> SocketAddr {
+    SocketAddr::from(([127, 1, (a >> 8) as u8, a as u8], 9042))
+}
+
+fn addr_id(a: &SocketAddr) -> u16 {
+    match a.ip() {
+        std::net::IpAddr::V4(ip) => ((ip.octets()[2] as u16) << 8) | ip.octets()[3] as u16,
+        _ => 0,
+    }
+}
+
+/// `host.addr.dc.rack,…` or a bare tag.
+fn parse_nodes(s: &str) -> Option<Vec<PeerSpec>> {
+    if let Ok(tag) = s.parse::<u64>() {
+        return Some(vec![PeerSpec { host: tag, addr: addr_of(tag as u16), dc: 0, rack: 0 }]);
+    }
+    if s == "-" {
+        return Some(vec![]);
+    }
+    s.split(',')
+        .map(|n| {
+            let p: Vec<&str> = n.split('.').collect();
+            if p.len() != 4 {
+                return None;
+            }
+            Some(PeerSpec { host: p[0].parse().ok()?, addr: addr_of(p[1].parse().ok()?), dc: p[2].parse().ok()?, rack: p[3].parse().ok()? })
+        })
+        .collect()
+}
 
 fn parse_route_entries(s: &str, allow_removal: bool) -> Option<Vec<(u64, u16, Option<u16>)>> {
     if s == "-" {
@@ -57,51 +96,158 @@ fn parse_route_entries(s: &str, allow_removal: bool) -> Option<Vec<(u64, u16, Op
         .collect()
 }
 
-/// Does the full fetch at index `k` carry client routes (G/H) - as opposed to F/R, recorded with the marker entry?
+/// Does the full fetch at index `k` carry client routes (G/H) - as opposed to F/R/M/N, recorded with the marker entry?
 fn routes_configured_at(pending: &[(bool, Vec<(u64, u16, Option<u16>)>)], k: usize) -> bool {
     !(pending[k].1.len() == 1 && pending[k].1[0] == (u64::MAX, 0, None))
+}
+
+/// What ONE update (everything merged since the consumer last took the slot) does to the subscriber's routes: a full
+/// fetch's snapshot (if it carries routes) replaces and subsumes the partial updates merged before it; later partial
+/// updates are applied on top; a full fetch without client routes delivers nothing, nor do updates merged into it.
+fn apply_pending_routes(sub_routes: &mut BTreeMap<(u64, u16), u16>, pending_routes: &[(bool, Vec<(u64, u16, Option<u16>)>)]) {
+    let last_full = pending_routes.iter().rposition(|(full, _)| *full);
+    let start = match last_full {
+        Some(k) => {
+            if routes_configured_at(pending_routes, k) {
+                sub_routes.clear();
+                for (h, c, p) in &pending_routes[k].1 {
+                    sub_routes.insert((*h, *c), p.unwrap());
+                }
+                k + 1
+            } else {
+                pending_routes.len()
+            }
+        }
+        None => 0,
+    };
+    for (_, entries) in &pending_routes[start.min(pending_routes.len())..] {
+        let upd: BTreeMap<(u64, u16), Option<u16>> = entries.iter().map(|&(h, c, p)| ((h, c), p)).collect();
+        for (k, p) in upd {
+            match p {
+                Some(p) => {
+                    sub_routes.insert(k, p);
+                }
+                None => {
+                    sub_routes.remove(&k);
+                }
+            }
+        }
+    }
 }
 
 fn list(xs: &[u64], sep: &str) -> String {
     if xs.is_empty() { "-".into() } else { xs.iter().map(|x| x.to_string()).collect::<Vec<_>>().join(sep) }
 }
 
-/// Waits until the worker has taken whatever is in the slot. `false`: not within 60 s.
-async fn wait_taken(rig: &mut WorkerRig) -> Result<bool, ()> {
+fn accepts(filter: u8, p: &PeerSpec) -> bool {
+    match filter {
+        0 => false,
+        2 => p.rack != 9,
+        _ => true,
+    }
+}
+
+fn fmt_view(v: &[(u64, u16, u8, u8, bool)]) -> String {
+    if v.is_empty() {
+        return "-".into();
+    }
+    v.iter().map(|(h, a, d, r, e)| format!("{}.{}.{}.{}.{}", h, a, d, r, *e as u8)).collect::<Vec<_>>().join(",")
+}
+
+fn strip(v: &[NodeView]) -> Vec<(u64, u16, u8, u8, bool)> {
+    v.iter().map(|n| (n.host, addr_id(&n.addr), n.dc, n.rack, n.enabled)).collect()
+}
+
+/// Waits until the worker has taken whatever is in the slot. `false`: not within `bound`.
+async fn wait_taken(rig: &mut WorkerRig, bound: Duration) -> Result<bool, ()> {
     let t0 = Instant::now();
     loop {
         if !rig.slot_full()? {
             return Ok(true);
         }
-        if t0.elapsed() > Duration::from_secs(20) {
+        if t0.elapsed() > bound {
             return Ok(false);
         }
         tokio::time::sleep(Duration::from_micros(50)).await;
     }
 }
 
+async fn read_frame(sock: &mut tokio::net::TcpStream) -> Option<(i16, u8)> {
+    let mut hdr = [0u8; 9];
+    sock.read_exact(&mut hdr).await.ok()?;
+    let len = u32::from_be_bytes([hdr[5], hdr[6], hdr[7], hdr[8]]) as usize;
+    let mut body = vec![0u8; len];
+    sock.read_exact(&mut body).await.ok()?;
+    Some((i16::from_be_bytes([hdr[2], hdr[3]]), hdr[4]))
+}
+
+/// What listens at a node address: 'L' close at once, 'Q' SUPPORTED then close, 'Y' full handshake, 'Z' mute.
+async fn serve(kind: char, mut sock: tokio::net::TcpStream) {
+    use crate::mocknode::{RESP_READY, RESP_SUPPORTED, body_supported_ext, frame};
+    match kind {
+        'L' => {}
+        'Z' => {
+            // keep the socket open, never answer
+            let mut buf = [0u8; 256];
+            while let Ok(n) = sock.read(&mut buf).await {
+                if n == 0 {
+                    break;
+                }
+            }
+        }
+        _ => {
+            while let Some((stream, opcode)) = read_frame(&mut sock).await {
+                let resp = match opcode {
+                    0x05 => frame(stream, RESP_SUPPORTED, &body_supported_ext(false, None, None)),
+                    _ if kind == 'Q' => return, // STARTUP: close
+                    _ => frame(stream, RESP_READY, &[]), // STARTUP / REGISTER / anything else
+                };
+                if sock.write_all(&resp).await.is_err() {
+                    return;
+                }
+            }
+        }
+    }
+}
+
 pub fn run_worker(body: &str, ctx: &mut Ctx) -> String {
     let ops: Vec<&str> = body.split(';').filter(|o| !o.is_empty()).collect();
-    let accepting = ops.first() == Some(&"A1");
-    let with_subscriber = ops.get(accepting as usize) == Some(&"S1");
+    // header
+    let mut hdr = 0usize;
+    let mut filter = 0u8;
+    if let Some(o) = ops.get(hdr) {
+        if *o == "A1" || *o == "A2" {
+            filter = if *o == "A1" { 1 } else { 2 };
+            hdr += 1;
+        }
+    }
+    let mut with_subscriber = false;
+    if ops.get(hdr) == Some(&"S1") {
+        with_subscriber = true;
+        hdr += 1;
+    }
+    let mut initial: Vec<PeerSpec> = parse_nodes("0").unwrap();
+    if let Some(o) = ops.get(hdr) {
+        if let Some(rest) = o.strip_prefix('I') {
+            let Some(ns) = parse_nodes(rest) else { return "bad-case".into() };
+            initial = ns;
+            hdr += 1;
+        }
+    }
     let rt = tokio::runtime::Builder::new_current_thread().enable_all().build().unwrap();
     rt.block_on(async {
-        let mut rig = if accepting {
-            WorkerRig::spawn_accepting(INITIAL_TAG, with_subscriber).await
-        } else {
-            WorkerRig::spawn(INITIAL_TAG, with_subscriber).await
-        };
+        let mut rig = WorkerRig::spawn_peers(&initial, with_subscriber, filter).await;
         let mut listeners: Vec<tokio::task::JoinHandle<()>> = Vec::new();
-        // oracle: the client routes the subscriber must hold (None = no full snapshot / update delivered yet)
-        let mut sub_routes: std::collections::BTreeMap<(u64, u16), u16> = Default::default();
-        // routes merged since the last catch-up, in order: (is_full_snapshot, entries)
-        let mut pending_routes: Vec<(bool, Vec<(u64, u16, Option<u16>)>)> = Vec::new();
+        let mut muted: BTreeSet<u16> = BTreeSet::new();
         // oracle state
-        let mut latest: u64 = INITIAL_TAG; // latest topology merged so far
-        let mut topo_since_k = false;
+        let mut latest: Vec<PeerSpec> = initial.clone(); // latest topology merged so far
+        let mut applied_hosts: BTreeSet<u64> = initial.iter().map(|p| p.host).collect(); // hosts of the published state
+        let mut new_since_k = false; // a topology or a tablets batch since the last catch-up
         let mut outstanding: Vec<u64> = Vec::new();
         let mut last_ptr = rig.published_ptr();
-        let mut out: Vec<String> = Vec::new();
+        let mut sub_routes: BTreeMap<(u64, u16), u16> = Default::default();
+        let mut pending_routes: Vec<(bool, Vec<(u64, u16, Option<u16>)>)> = Vec::new();
+        let mut out: Vec<String> = vec!["-".to_string(); hdr];
         macro_rules! sent {
             ($e:expr, $i:expr) => {
                 if $e.is_err() {
@@ -110,53 +256,94 @@ pub fn run_worker(body: &str, ctx: &mut Ctx) -> String {
                 }
             };
         }
-        for (i, op) in ops.iter().enumerate() {
+        for (i, op) in ops.iter().enumerate().skip(hdr) {
             let (c, arg) = op.split_at(1);
             match c {
-                "A" => {
-                    if i != 0 || arg != "1" {
-                        return "bad-case".to_owned();
-                    }
-                    out.push("-".into());
-                }
-                "S" => {
-                    if i != accepting as usize || arg != "1" {
-                        return "bad-case".to_owned();
-                    }
-                    out.push("-".into());
-                }
-                "L" => {
-                    // a listener at the address of topology `tag`'s node: accepts and closes at once
-                    let Ok(tag) = arg.parse::<u64>() else { return "bad-case".to_owned() };
-                    let addr = std::net::SocketAddr::from(([127, 1, (tag >> 8) as u8, tag as u8], 9042));
-                    match tokio::net::TcpListener::bind(addr).await {
+                "L" | "Q" | "Y" | "Z" => {
+                    let Ok(a) = arg.parse::<u16>() else { return "bad-case".to_owned() };
+                    let kind = c.chars().next().unwrap();
+                    match tokio::net::TcpListener::bind(addr_of(a)).await {
                         Ok(l) => listeners.push(tokio::spawn(async move {
                             loop {
                                 if let Ok((sock, _)) = l.accept().await {
-                                    drop(sock);
+                                    tokio::spawn(serve(kind, sock));
                                 }
                             }
                         })),
                         Err(_) => return "e2e-skip cannot-bind-listener".to_owned(),
                     }
+                    if kind == 'Z' {
+                        muted.insert(a);
+                    }
+                    out.push("-".into());
+                }
+                "B" => {
+                    if !arg.is_empty() {
+                        return "bad-case".to_owned();
+                    }
+                    // first let the consumer apply whatever is pending (so that the only publication to wait for is
+                    // the tablets branch's), then send the batch: the tablets branch publishes a clone of the CURRENT
+                    // state
+                    for phase in 0..2 {
+                        match wait_taken(&mut rig, Duration::from_secs(20)).await {
+                            Ok(true) => {}
+                            _ => {
+                                ctx.fail(format!("op {}: the cluster worker did not take a pending update within 20 s", i));
+                                return "hang".to_owned();
+                            }
+                        }
+                        if phase == 0 {
+                            sent!(rig.merge_hint(0, false), i);
+                        }
+                    }
+                    applied_hosts = latest.iter().map(|p| p.host).collect();
+                    if with_subscriber {
+                        apply_pending_routes(&mut sub_routes, &pending_routes);
+                    }
+                    pending_routes.clear();
+                    let before = rig.published_ptr();
+                    let replica = rig.published().first().copied().unwrap_or(0);
+                    if !rig.send_tablet("ks", "t", -10, 10, &[(replica, 0)]) {
+                        ctx.fail(format!("op {}: the tablets channel is closed or full", i));
+                        return "tablets-send-failed".to_owned();
+                    }
+                    let t0 = Instant::now();
+                    while rig.published_ptr() == before {
+                        if t0.elapsed() > Duration::from_secs(10) {
+                            ctx.fail(format!("op {}: the tablets batch was not applied within 10 s", i));
+                            return "tablets-hang".to_owned();
+                        }
+                        tokio::time::sleep(Duration::from_micros(50)).await;
+                    }
+                    new_since_k = true;
                     out.push("-".into());
                 }
                 "K" => {
                     if !arg.is_empty() {
                         return "bad-case".to_owned();
                     }
+                    // a node that accepts and never answers keeps the handler parked until the connect timeout
+                    let expect_hang = filter != 0
+                        && latest.iter().any(|p| accepts(filter, p) && muted.contains(&addr_id(&p.addr)) && !applied_hosts.contains(&p.host));
+                    let bound = if expect_hang { Duration::from_millis(1500) } else { Duration::from_secs(20) };
                     for phase in 0..2 {
-                        match wait_taken(&mut rig).await {
+                        match wait_taken(&mut rig, bound).await {
                             Err(()) => {
                                 ctx.fail(format!("op {}: modify returned SendError although the cluster worker is alive", i));
                                 return "senderror".to_owned();
                             }
                             Ok(false) => {
-                                ctx.fail(format!(
-                                    "op {}: the cluster worker did not take a pending update within 20 s: it never finished applying the previous one (parked at wait_until_all_pools_are_initialized?) or lost a wake-up",
-                                    i
-                                ));
-                                return "hang".to_owned();
+                                if !expect_hang {
+                                    ctx.fail(format!(
+                                        "op {}: the cluster worker did not take a pending update within 20 s: it never finished applying the previous one (parked at wait_until_all_pools_are_initialized?) or lost a wake-up",
+                                        i
+                                    ));
+                                }
+                                out.push("hang".into());
+                                for l in &listeners {
+                                    l.abort();
+                                }
+                                return out.join(";");
                             }
                             Ok(true) => {}
                         }
@@ -164,19 +351,35 @@ pub fn run_worker(body: &str, ctx: &mut Ctx) -> String {
                             sent!(rig.merge_hint(0, false), i);
                         }
                     }
-                    let published = rig.published();
+                    if expect_hang {
+                        ctx.fail(format!("op {}: the update was applied although one of its new nodes accepts connections and never answers", i));
+                    }
+                    let views = rig.published_views();
                     let ptr = rig.published_ptr();
                     let new = ptr != last_ptr;
                     last_ptr = ptr;
                     let (ok, err, dropped) = rig.poll_refresh();
-                    if published != vec![latest] {
+                    // every view names the same node objects ...
+                    let consistent = views.nodes_info == views.known_nodes && views.known_nodes == views.by_host_id && views.ring == views.known_nodes;
+                    if !consistent {
                         ctx.fail(format!(
-                            "op {}: after the consumer caught up the published known_nodes are {:?}; the latest topology merged by the producer is [{}] (an update was discarded or a stale one published)",
-                            i, published, latest
+                            "op {}: the views of the published state disagree: get_nodes_info()={} known_nodes={} get_node_by_host_id={} ring={} (object identity included)",
+                            i, fmt_view(&strip(&views.nodes_info)), fmt_view(&strip(&views.known_nodes)), fmt_view(&strip(&views.by_host_id)), fmt_view(&strip(&views.ring))
                         ));
                     }
-                    if new != topo_since_k {
-                        ctx.fail(format!("op {}: new ClusterState published = {}, topology merged since the last catch-up = {}", i, new, topo_since_k));
+                    // ... and each of them IS the latest merged topology, field-wise
+                    let mut want: Vec<(u64, u16, u8, u8, bool)> = latest.iter().map(|p| (p.host, addr_id(&p.addr), p.dc, p.rack, accepts(filter, p))).collect();
+                    want.sort();
+                    for (name, v) in [("get_nodes_info()", &views.nodes_info), ("known_nodes", &views.known_nodes), ("get_node_by_host_id", &views.by_host_id), ("ring", &views.ring)] {
+                        if strip(v) != want {
+                            ctx.fail(format!(
+                                "op {}: after the consumer caught up {} shows {}; the latest topology merged by the producer is {} (an update was discarded, a stale node kept, or a stale state published)",
+                                i, name, fmt_view(&strip(v)), fmt_view(&want)
+                            ));
+                        }
+                    }
+                    if new != new_since_k {
+                        ctx.fail(format!("op {}: new ClusterState published = {}, topology / tablets arrived since the last catch-up = {}", i, new, new_since_k));
                     }
                     if !dropped.is_empty() || !err.is_empty() {
                         ctx.fail(format!("op {}: refresh requests dropped unanswered {:?} / answered with an error {:?}", i, dropped, err));
@@ -184,40 +387,9 @@ pub fn run_worker(body: &str, ctx: &mut Ctx) -> String {
                     if ok != outstanding {
                         ctx.fail(format!("op {}: refresh requests answered {:?}, attached since the last catch-up {:?}", i, ok, outstanding));
                     }
-                    // what the subscriber must hold now: a full fetch's snapshot (if it carries routes) replaces, it
-                    // subsumes the partial updates merged before it; later partial updates are applied on top
                     let observed_routes = rig.subscriber_routes();
                     if with_subscriber {
-                        // the slot's update: the last full snapshot since the previous catch-up, if any, decides
-                        let last_full = pending_routes.iter().rposition(|(full, _)| *full);
-                        let start = match last_full {
-                            Some(k) => {
-                                // routes of the full fetch + the later partial updates went into that metadata
-                                if routes_configured_at(&pending_routes, k) {
-                                    sub_routes.clear();
-                                    for (h, c, p) in &pending_routes[k].1 {
-                                        sub_routes.insert((*h, *c), p.unwrap());
-                                    }
-                                    k + 1
-                                } else {
-                                    pending_routes.len() // a full fetch without client routes: later updates are ignored
-                                }
-                            }
-                            None => 0,
-                        };
-                        for (_, entries) in &pending_routes[start.min(pending_routes.len())..] {
-                            let upd: std::collections::BTreeMap<(u64, u16), Option<u16>> = entries.iter().map(|&(h, c, p)| ((h, c), p)).collect();
-                            for (k, p) in upd {
-                                match p {
-                                    Some(p) => {
-                                        sub_routes.insert(k, p);
-                                    }
-                                    None => {
-                                        sub_routes.remove(&k);
-                                    }
-                                }
-                            }
-                        }
+                        apply_pending_routes(&mut sub_routes, &pending_routes);
                         let want: Vec<(u64, u16, Option<u16>)> = sub_routes.iter().map(|(k, p)| (k.0, k.1, Some(*p))).collect();
                         if observed_routes.as_ref() != Some(&want) {
                             ctx.fail(format!(
@@ -230,7 +402,8 @@ pub fn run_worker(body: &str, ctx: &mut Ctx) -> String {
                     }
                     pending_routes.clear();
                     outstanding.clear();
-                    topo_since_k = false;
+                    new_since_k = false;
+                    applied_hosts = latest.iter().map(|p| p.host).collect();
                     let routes_str = match &observed_routes {
                         None => "none".to_string(),
                         Some(v) if v.is_empty() => "-".to_string(),
@@ -240,9 +413,14 @@ pub fn run_worker(body: &str, ctx: &mut Ctx) -> String {
                             .collect::<Vec<_>>()
                             .join(","),
                     };
+                    let pub_str = if consistent {
+                        fmt_view(&strip(&views.known_nodes))
+                    } else {
+                        format!("VIEWS-DIFFER[{}|{}|{}|{}]", fmt_view(&strip(&views.nodes_info)), fmt_view(&strip(&views.known_nodes)), fmt_view(&strip(&views.by_host_id)), fmt_view(&strip(&views.ring)))
+                    };
                     out.push(format!(
                         "pub={} new={} ok={} err={} drop={} routes={}",
-                        list(&published, "+"),
+                        pub_str,
                         new as u8,
                         list(&ok, ","),
                         list(&err, ","),
@@ -258,15 +436,15 @@ pub fn run_worker(body: &str, ctx: &mut Ctx) -> String {
                 }
                 "G" | "H" => {
                     let Some((tag, rs)) = arg.split_once('/') else { return "bad-case".to_owned() };
-                    let Ok(tag) = tag.parse::<u64>() else { return "bad-case".to_owned() };
+                    let Some(peers) = parse_nodes(tag) else { return "bad-case".to_owned() };
                     let Some(entries) = parse_route_entries(rs, false) else { return "bad-case".to_owned() };
                     let entries: Vec<(u64, u16, u16)> = entries.into_iter().map(|(h, c, p)| (h, c, p.unwrap())).collect();
-                    match rig.merge_metadata(tag, c == "H", Some(&entries)) {
+                    match rig.merge_metadata_peers(&peers, c == "H", Some(&entries)) {
                         Err(()) => sent!(Err::<(), ()>(()), i),
                         Ok(id) => {
                             pending_routes.push((true, entries.iter().map(|&(h, c, p)| (h, c, Some(p))).collect()));
-                            latest = tag;
-                            topo_since_k = true;
+                            latest = peers;
+                            new_since_k = true;
                             match id {
                                 Some(id) => {
                                     outstanding.push(id);
@@ -277,42 +455,40 @@ pub fn run_worker(body: &str, ctx: &mut Ctx) -> String {
                         }
                     }
                 }
-                _ => {
-                    let Ok(n) = arg.parse::<u64>() else { return "bad-case".to_owned() };
-                    match c {
-                        "F" | "R" => match rig.merge_metadata(n, c == "R", None) {
-                            Err(()) => sent!(Err::<(), ()>(()), i),
-                            Ok(id) => {
-                                // a full fetch WITHOUT client routes configured: marker entry (x) so that the
-                                // reference knows nothing is delivered from it or from updates merged into it
-                                pending_routes.push((true, vec![(u64::MAX, 0, None)]));
-                                latest = n;
-                                topo_since_k = true;
-                                match id {
-                                    Some(id) => {
-                                        outstanding.push(id);
-                                        out.push(format!("r{}", id));
-                                    }
-                                    None => out.push("-".into()),
+                "F" | "R" | "M" | "N" => {
+                    let Some(peers) = parse_nodes(arg) else { return "bad-case".to_owned() };
+                    match rig.merge_metadata_peers(&peers, c == "R" || c == "N", None) {
+                        Err(()) => sent!(Err::<(), ()>(()), i),
+                        Ok(id) => {
+                            pending_routes.push((true, vec![(u64::MAX, 0, None)]));
+                            latest = peers;
+                            new_since_k = true;
+                            match id {
+                                Some(id) => {
+                                    outstanding.push(id);
+                                    out.push(format!("r{}", id));
                                 }
+                                None => out.push("-".into()),
                             }
-                        },
-                        "T" => {
-                            sent!(rig.merge_topology(n), i);
-                            latest = n;
-                            topo_since_k = true;
-                            out.push("-".into());
                         }
-                        "U" | "W" => {
-                            if n > 65535 {
-                                return "bad-case".to_owned();
-                            }
-                            sent!(rig.merge_hint(n as u16, c == "U"), i);
-                            out.push("-".into());
-                        }
-                        _ => return "bad-case".to_owned(),
                     }
                 }
+                "T" | "P" => {
+                    let Some(peers) = parse_nodes(arg) else { return "bad-case".to_owned() };
+                    sent!(rig.merge_topology_peers(&peers), i);
+                    latest = peers;
+                    new_since_k = true;
+                    out.push("-".into());
+                }
+                "U" | "W" => {
+                    let Ok(n) = arg.parse::<u64>() else { return "bad-case".to_owned() };
+                    if n > 65535 {
+                        return "bad-case".to_owned();
+                    }
+                    sent!(rig.merge_hint(n as u16, c == "U"), i);
+                    out.push("-".into());
+                }
+                _ => return "bad-case".to_owned(),
             }
         }
         for l in listeners {
@@ -352,29 +528,89 @@ fn exhaustive(depth: usize, emit: &mut dyn FnMut(String)) {
     }
 }
 
+/// Same-host-id-set changes of a two-node topology under every filter mode: node 2 moves, changes rack / dc, has its
+/// verdict flipped (rack 9), through a PARTIAL or a FULL fetch, with / without a tablets batch and a catch-up in between.
+fn same_membership(emit: &mut dyn FnMut(String)) {
+    let base = "1.10.1.1,2.20.1.1";
+    let variants = ["1.10.1.1,2.21.1.1", "1.10.1.1,2.20.1.2", "1.10.1.1,2.20.2.1", "1.10.1.1,2.20.1.9", "1.11.1.9,2.21.2.2", "2.20.1.1,1.10.1.1"];
+    for a in ["", "A1;", "A2;"] {
+        for s in ["", "S1;"] {
+            for v in variants {
+                for kind in ["P", "M", "N"] {
+                    emit(format!("worker {}{}I{};K;{}{};K", a, s, base, kind, v));
+                    emit(format!("worker {}{}I{};{}{};B;K;B;K", a, s, base, kind, v));
+                    emit(format!("worker {}{}I{};{}{};K;P{};K;{}{};K", a, s, base, kind, v, base, kind, v));
+                }
+                // back and forth: rack 9 flips the A2 verdict off and on again
+                emit(format!("worker {}{}I{};P{};K;B;P{};K", a, s, base, v, base));
+            }
+        }
+    }
+}
+
+/// What listens at the address of a NEW node of an accepted topology decides how its pool leaves Initializing.
+fn pool_outcomes(emit: &mut dyn FnMut(String)) {
+    for a in ["A1;", "A2;"] {
+        for l in ["", "L30;", "Q30;", "Y30;"] {
+            for kind in ["P", "N"] {
+                emit(format!("worker {}{}{}1.10.1.1,3.30.1.1;K;{}1.10.1.1,3.30.1.2;K", a, l, kind, kind));
+                emit(format!("worker {}I1.10.1.1;{}K;{}1.10.1.1,3.30.1.1;B;K", a, l, kind));
+            }
+        }
+        // a node that accepts and never answers: the handler stays parked (no timeout of its own)
+        emit(format!("worker {}Z30;P1.10.1.1,3.30.1.1;K", a));
+        emit(format!("worker {}I1.10.1.1;K;Z31;N1.10.1.1,4.31.2.2;K", a));
+    }
+}
+
+fn random_nodes(rng: &mut Rng) -> String {
+    // hosts from a pool of 3, addresses / dc / rack from small pools: same-membership changes are frequent
+    let mut hosts: Vec<u64> = vec![1, 2, 3];
+    rng.shuffle(&mut hosts);
+    let n = rng.range(1, 3) as usize;
+    hosts.truncate(n);
+    hosts
+        .iter()
+        .map(|h| format!("{}.{}.{}.{}", h, h * 10 + rng.below(2), 1 + rng.below(2), *rng.pick(&[1u64, 1, 2, 9])))
+        .collect::<Vec<_>>()
+        .join(",")
+}
+
 fn random_case(rng: &mut Rng, len: usize) -> String {
-    let (wf, wg, wt, wh, wc, wk) = *rng.pick(&[(3u64, 2u64, 3u64, 2u64, 3u64, 3u64), (1, 1, 6, 1, 4, 3), (4, 2, 1, 1, 1, 2), (1, 3, 3, 0, 6, 3), (0, 0, 5, 1, 5, 4)]);
+    let (wf, wg, wt, wh, wc, wk, wb) = *rng.pick(&[
+        (3u64, 2u64, 3u64, 2u64, 3u64, 3u64, 1u64),
+        (1, 1, 6, 1, 4, 3, 1),
+        (4, 2, 1, 1, 1, 2, 1),
+        (1, 3, 3, 0, 6, 3, 0),
+        (2, 0, 6, 0, 1, 4, 2),
+    ]);
+    let explicit = rng.chance(1, 2);
     let mut tag = 0u64;
     let mut ops: Vec<String> = Vec::new();
-    if rng.chance(1, 2) {
-        ops.push("A1".into());
+    match rng.below(4) {
+        0 => ops.push("A1".into()),
+        1 => ops.push("A2".into()),
+        _ => {}
     }
     if rng.chance(2, 3) {
         ops.push("S1".into());
     }
+    if explicit {
+        ops.push(format!("I{}", random_nodes(rng)));
+    }
     for _ in 0..len {
-        let k = rng.below(wf + wg + wt + wh + wc + wk);
+        let k = rng.below(wf + wg + wt + wh + wc + wk + wb);
         ops.push(if k < wf {
             tag += 1;
-            format!("{}{}", if rng.bool() { 'F' } else { 'R' }, tag)
+            if explicit { format!("{}{}", if rng.bool() { 'M' } else { 'N' }, random_nodes(rng)) } else { format!("{}{}", if rng.bool() { 'F' } else { 'R' }, tag) }
         } else if k < wf + wg {
             tag += 1;
             let n = rng.below(3);
             let routes = if n == 0 { "-".to_string() } else { (0..n).map(|_| format!("{}.{}.{}", rng.range(1, 2), rng.range(1, 2), rng.range(1, 3))).collect::<Vec<_>>().join(",") };
-            format!("{}{}/{}", if rng.bool() { 'G' } else { 'H' }, tag, routes)
+            format!("{}{}/{}", if rng.bool() { 'G' } else { 'H' }, if explicit { random_nodes(rng) } else { tag.to_string() }, routes)
         } else if k < wf + wg + wt {
             tag += 1;
-            format!("T{}", tag)
+            if explicit { format!("P{}", random_nodes(rng)) } else { format!("T{}", tag) }
         } else if k < wf + wg + wt + wh {
             format!("{}{}", if rng.bool() { 'U' } else { 'W' }, rng.range(1, 4))
         } else if k < wf + wg + wt + wh + wc {
@@ -386,8 +622,10 @@ fn random_case(rng: &mut Rng, len: usize) -> String {
                     .collect::<Vec<_>>()
                     .join(",")
             )
-        } else {
+        } else if k < wf + wg + wt + wh + wc + wk {
             "K".into()
+        } else {
+            "B".into()
         });
     }
     ops.push("K".into());
@@ -397,7 +635,9 @@ fn random_case(rng: &mut Rng, len: usize) -> String {
 pub fn generate(rng: &mut Rng, tier: Tier, emit: &mut dyn FnMut(String)) {
     let quick = tier == Tier::Quick;
     exhaustive(if quick { 3 } else { 4 }, emit);
-    for _ in 0..(if quick { 500 } else { 6_000 }) {
+    same_membership(emit);
+    pool_outcomes(emit);
+    for _ in 0..(if quick { 600 } else { 7_000 }) {
         let len = rng.range(1, 14) as usize;
         emit(random_case(rng, len));
     }
